@@ -206,7 +206,7 @@ __CPROVER_ensures(gv_exc == 0 ==> self->tst_vyrovnani_)
 GV_CANARY("LocalNetwork_lindep entry");
 //@ contract LocalNetwork_stdev_obs
 __CPROVER_requires(__CPROVER_rw_ok(self, sizeof(*self)) && gv_exc == 0 && NET_INV(self) && NET_MEM(self) && self == gv_net)
-__CPROVER_requires(i >= 1 && (self->tst_redmer_ ==> i <= self->pocmer_))
+__CPROVER_requires(i >= 1 && i == gv_obs_index && (self->tst_vyrovnani_ ==> i <= self->pocmer_))
 __CPROVER_assigns(NET_STAGE_FRAME(self))
 __CPROVER_ensures(NET_INV(self))
 __CPROVER_ensures(gv_exc == 0 ==> self->tst_vyrovnani_)
@@ -214,7 +214,7 @@ __CPROVER_ensures(gv_exc == 0 ==> self->tst_vyrovnani_)
 GV_CANARY("LocalNetwork_stdev_obs entry");
 //@ contract LocalNetwork_wcoef_res
 __CPROVER_requires(__CPROVER_rw_ok(self, sizeof(*self)) && gv_exc == 0 && NET_INV(self) && NET_MEM(self) && self == gv_net)
-__CPROVER_requires(i >= 1 && (self->tst_redmer_ ==> i <= self->pocmer_))
+__CPROVER_requires(i >= 1 && i == gv_obs_index && (self->tst_vyrovnani_ ==> i <= self->pocmer_))
 __CPROVER_assigns(NET_STAGE_FRAME(self))
 __CPROVER_ensures(NET_INV(self))
 __CPROVER_ensures(gv_exc == 0 ==> self->tst_vyrovnani_)
